@@ -96,6 +96,18 @@ theorem den_ty_container_inv {p : Program} {j : Nat} {te : TypeExpr} {t : Target
 theorem concrete_ne_typedef {c : Cat} (h : c.isConcrete = true) : c ≠ .typedef := by
   intro e; subst e; simp [Cat.isConcrete] at h
 
+theorem den_cat_ne_typedef {p : Program} {j : Nat} {x : NameOrType} {t : Target} (h : Den p j x t) :
+    t.cat ≠ .typedef := by
+  induction h with
+  | concrete _ _ h3 => exact concrete_ne_typedef h3
+  | typedef _ _ _ ih => exact ih
+  | base h1 => exact (specBase_isBase h1).1
+  | list => simp
+  | set => simp
+  | map => simp
+  | loc _ _ _ ih => exact ih
+  | qual _ _ _ _ _ ih => exact ih
+
 /-- On a program resolved up to `tbl`, denotations from a finished file are unique. -/
 theorem den_unique {p : Program} {gfuel : Nat} {tbl : Table} (inv : TableInv p gfuel tbl) :
     ∀ {j x t}, Den p j x t → (∃ rf, tbl[j]? = some (some rf)) → ∀ t', Den p j x t' → t = t' := by
